@@ -1,6 +1,7 @@
 """Semantics-preserving normal form of one function, so that rules see through the usual behaviour-neutral
 refactors instead of matching one spelling of the code:
 
+  N0 match    `match` statements whose cases bind no name become if / elif chains.
   N1 inline   calls to private same-module helpers are replaced by the helper body (parameters substituted,
               helper locals renamed, early returns turned into if/else so that every return is a tail return);
               helpers a rule knows by name (``keep``) stay calls.
@@ -109,6 +110,56 @@ def _params(fn: ast.AST) -> List[str]:
     if a.kwarg:
         out.append(a.kwarg.arg)
     return out
+
+
+# ---------------------------------------------------------------------------------------------------------
+# N0 match statements -> if / elif chains
+# ---------------------------------------------------------------------------------------------------------
+
+def _lower_match(fn: ast.AST) -> None:
+    """`match s: case A: .. case B: ..` becomes `if <A test>: .. elif <B test>: ..` when no case binds a name (value,
+    singleton, `|`, `_`, bare class patterns, guards); other match statements are left alone."""
+    from .cfg import match_case_test
+
+    def binds(p: ast.AST) -> bool:
+        return any(type(x).__name__ in ("MatchAs", "MatchStar", "MatchMapping") and getattr(x, "name", None) or (type(x).__name__ == "MatchMapping" and getattr(x, "rest", None)) for x in ast.walk(p))
+
+    counter = [0]
+    changed = True
+    while changed:
+        changed = False
+        for block in _blocks(fn):
+            for i, st in enumerate(block):
+                if type(st).__name__ != "Match":
+                    continue
+                if any(binds(c.pattern) for c in st.cases):
+                    continue
+                prologue: List[ast.stmt] = []
+                subject = st.subject
+                if not isinstance(subject, (ast.Name, ast.Attribute, ast.Constant)):
+                    counter[0] += 1
+                    tmp = f"_m{counter[0]}_subject"
+                    asg = ast.Assign(targets=[ast.Name(id=tmp, ctx=ast.Store())], value=subject)
+                    ast.copy_location(asg, st)
+                    prologue.append(asg)
+                    subject = ast.copy_location(ast.Name(id=tmp, ctx=ast.Load()), st.subject)
+                tests = [match_case_test(clone(subject), c) for c in st.cases]
+                if any(isinstance(x, ast.Call) and isinstance(x.func, ast.Name) and x.func.id == "__match__" for t in tests for x in ast.walk(t)):
+                    continue
+                chain: List[ast.stmt] = []
+                for test, c in reversed(list(zip(tests, st.cases))):
+                    if isinstance(test, ast.Constant) and test.value is True:
+                        chain = list(c.body)
+                    else:
+                        node = ast.If(test=test, body=list(c.body), orelse=chain)
+                        ast.copy_location(node, c.pattern)
+                        chain = [node]
+                block[i:i + 1] = prologue + (chain or [ast.copy_location(ast.Pass(), st)])
+                changed = True
+                break
+            if changed:
+                break
+    ast.fix_missing_locations(fn)
 
 
 # ---------------------------------------------------------------------------------------------------------
@@ -1008,6 +1059,9 @@ def _normalize(repo: Repo, mod: Module, fn: ast.AST, *, inline: bool = True, kee
     _attach_parents(new)
     new._parent = parent(fn)  # type: ignore[attr-defined]
     new._normal_of = fn  # type: ignore[attr-defined]
+    _lower_match(new)
+    _attach_parents(new)
+    new._parent = parent(fn)  # type: ignore[attr-defined]
     inl = _Inliner(repo, mod, new, keep)
     if inline:
         inl.run(new)
